@@ -2782,6 +2782,33 @@ theorem deleteRange_never_raises (S : Schema) (hdet : detB S = true) (hfill : S.
       ht hpf hpt st hr
     exact .inr ⟨st, doc', hr, ha, deleteRange_valid S hdet hfill hleaf doc doc' f t hv hattrs hft st hr ha⟩
 
+/-- **`replaceRange_delete_applies`** — `replace_range(f, t, slice)` with a slice of size 0 (it goes through
+    `delete_range`): the step its one call of `replace` records applies -/
+theorem replaceRange_delete_applies (S : Schema) (hdet : detB S = true) (hfill : S.fillersOKB = true)
+    (hleaf : PM.FromDom.leafOkB S = true) (hcl : S.closableB = true) (hts : textStableC S = true)
+    (hta : textAbsorbB S = true) (hjc : joinCompatB S = true) (hro : reopenOKB S = true)
+    (hiu : inlineUniformB S = true) (doc : Node) (f t : Nat) (sl : Slice) (hsz : (sl.size == 0) = true)
+    (cs : List (Nat × Nat × Slice))
+    (hv : C01.Valid S doc) (hdoc : C01.IsElem doc) (hn : fnorm doc.kids = true) (hattrs : S.nodeAttrsOK doc = true)
+    (hhc : highClosedKids doc.kids = true) (hft : f ≤ t) (ht : t ≤ fsize doc.kids)
+    (hpf : pairAligned doc f = true) (hpt : pairAligned doc t = true)
+    (h : replaceRangeCalls S doc f t sl = some cs) (c : Nat × Nat × Slice) (hc : c ∈ cs) (st : Step)
+    (hst : replaceStep S doc c.1 c.2.1 c.2.2 = .ok (some st)) : ∃ doc', S.apply st doc = .ok doc' := by
+  have hds : deleteRangeStep S doc f t = .ok (some st) := by
+    unfold replaceRangeCalls replaceRangePlan at h
+    rw [if_pos hsz] at h
+    unfold deleteRangeStep
+    split at h
+    · simp at h
+    · rename_i a b htg
+      simp only [Option.map_some, RRPlan.toCalls, Option.some.injEq] at h
+      subst h
+      simp only [List.mem_singleton] at hc
+      subst hc
+      rw [htg]
+      exact hst
+  exact deleteRange_applies S hdet hfill hleaf hcl hts hta hjc hro hiu doc f t hv hdoc hn hattrs hhc hft ht hpf hpt st hds
+
 /-- the hypotheses of `delete_applies` are satisfiable on runs that reach the Fitter: `doc(p("ab"), p("cd"))` with
     `doc: "paragraph+"`, `paragraph: "text*"` — deleting `[2, 6)` (from inside the first paragraph to inside the second)
     is not a trivial fit and ends in the replace step that joins the paragraphs; in `doc(bq(p("ab")), p("cd"))` with
